@@ -27,6 +27,7 @@ import (
 	"encoding/json"
 	"errors"
 	"fmt"
+	"hash/adler32"
 	"io"
 	golog "log"
 	"net"
@@ -769,9 +770,38 @@ type c05Proxy struct {
 	failAt   int      // client accepts this many reply bytes, then falls short (-1: everything)
 	refuse   bool     // covert port closed
 	header   int      // 0 off, 1 PROXY header with a good client address, 2 with an unparsable one
+	peer     int      // index into c05Peers: the text the client's RemoteAddr().String() gives (0: by `header`)
 	reset    int      // > 0: the covert resets the connection after this many bytes (oracle only)
 	duplex   bool     // both directions move data at the same time: the covert streams its reply from the
 	// start, the i-th client read is released when the client has received i/(k+1) of the reply
+}
+
+// c05Peers: peer-address texts of the client connection and the line writePROXYHeader has to form from each
+// (written out by hand; "" = the header step must refuse and no relay may start). Entry 0 is a placeholder.
+var c05Peers = []struct{ addr, line string }{
+	{"", ""},
+	{"192.0.2.10:5000", "PROXY TCP4 192.0.2.10 127.0.0.1 5000 1234\r\n"},
+	{"not-an-address", ""},
+	{"[2001:db8::1]:443", "PROXY TCP6 2001:db8::1 127.0.0.1 443 1234\r\n"},
+	{"[fe80::1%eth0]:8443", "PROXY TCP6 fe80::1%eth0 127.0.0.1 8443 1234\r\n"},
+	{"[::ffff:192.0.2.1]:80", "PROXY TCP4 ::ffff:192.0.2.1 127.0.0.1 80 1234\r\n"}, // as written: a dot makes it TCP4
+	{"", ""}, // a connection without a peer address text
+	{"2001:db8::1:443", ""},
+	{"192.0.2.10", ""},
+	{"198.51.100.200:65535", "PROXY TCP4 198.51.100.200 127.0.0.1 65535 1234\r\n"},
+	{"[::]:0", "PROXY TCP6 :: 127.0.0.1 0 1234\r\n"},
+}
+
+// peerOf: the entry of c05Peers a scenario uses (header 1 / 2 without an explicit peer: the good / the unparsable one)
+func (p *c05Proxy) peerOf() (string, string) {
+	i := p.peer
+	if i == 0 {
+		i = 1
+		if p.header == 2 {
+			i = 2
+		}
+	}
+	return c05Peers[i].addr, c05Peers[i].line
 }
 
 var c05Key = bytes.Repeat([]byte{0x11, 0x22}, 16)
@@ -814,10 +844,12 @@ func runC05Proxy(out *vlib.Out, p *c05Proxy) (string, string) {
 	for _, c := range p.upChunks {
 		sent = append(sent, c...)
 	}
+	peerAddr, peerLine := p.peerOf()
 	headerLine := ""
-	if p.header == 1 {
-		headerLine = "PROXY TCP4 192.0.2.10 127.0.0.1 5000 1234\r\n"
+	if p.header != 0 {
+		headerLine = peerLine
 	}
+	hdrRefused := p.header != 0 && peerLine == "" // flag set and no line can be formed: no relay may start
 	expect := len(headerLine) + len(sent)
 	reply := c05Pattern(p.reply, 7)
 
@@ -917,9 +949,7 @@ func runC05Proxy(out *vlib.Out, p *c05Proxy) (string, string) {
 	client.quiet = true
 	client.failAt = p.failAt
 	client.watchBuf = p.duplex
-	if p.header == 2 {
-		client.remote = c05Addr("not-an-address")
-	}
+	client.remote = c05Addr(peerAddr)
 	for i, c := range p.upChunks {
 		r := c05Read{data: c, err: "-"}
 		if i == len(p.upChunks)-1 && p.upLast != "block" {
@@ -999,8 +1029,11 @@ func runC05Proxy(out *vlib.Out, p *c05Proxy) (string, string) {
 	bufChanged := client.bufChanged
 	w.mu.Unlock()
 	started := atomic.LoadInt32(&client.closes) > 0 // observed: the relay ran iff it closed the client
-	if started != (!p.refuse && p.header != 2) && returned && !panicked {
-		fail("not-closed", fmt.Sprintf("relay expected to run: %v, client connection closed: %v", !p.refuse && p.header != 2, started))
+	if started != (!p.refuse && !hdrRefused) && returned && !panicked {
+		fail("not-closed", fmt.Sprintf("relay expected to run: %v, client connection closed: %v", !p.refuse && !hdrRefused, started))
+	}
+	if returned && !panicked && !started && len(srvGot) > 0 {
+		fail("sent-without-relay", fmt.Sprintf("no relay was started (peer address %q) but the covert was sent %q", peerAddr, srvGot))
 	}
 	covertClosed := srv.accepted && srv.sawClose
 
@@ -1068,13 +1101,8 @@ func runC05Proxy(out *vlib.Out, p *c05Proxy) (string, string) {
 	if p.refuse {
 		dial = "refused"
 	}
-	hd := "-"
-	switch p.header {
-	case 1:
-		hd = "1"
-	case 2:
-		hd = "0"
-	}
+	// the header step as the model computes it: the flag and the client's peer-address text
+	hd := vlib.B(p.header != 0) + "." + vlib.Hex([]byte(peerAddr))
 	up := &c05Script{up: true, reads: client.reads, srcClose: "-", dstClose: "-"}
 	down := &c05Script{srcClose: "-", dstClose: "-"}
 	if p.upLast == "block" {
@@ -1105,6 +1133,13 @@ func runC05Proxy(out *vlib.Out, p *c05Proxy) (string, string) {
 		vlib.B(started), vlib.B(returned), gauge1-gauge0, printed, ts.BytesUp, ts.BytesDown,
 		vlib.Hex([]byte(ts.CovertDialErr)), vlib.Hex([]byte(ts.ClientConnErr)), vlib.Hex([]byte(ts.CovertConnErr)),
 		atomic.LoadInt32(&client.closes), vlib.B(covertClosed), vlib.B(panicked))
+	// the byte stream the covert was sent: length, Adler-32, first 96 bytes
+	head := srvGot
+	if len(head) > 96 {
+		head = head[:96]
+	}
+	ans += fmt.Sprintf("|cs:%d.%d.%s", len(srvGot), adler32.Checksum(srvGot), vlib.Hex(head))
+	out.Count(fmt.Sprintf("proxy:flag=%v,peer=%d", p.header != 0, p.peer))
 	return line, ans
 }
 
@@ -1477,6 +1512,15 @@ func c05ProxyScenarios(r *vlib.Rand, n int) []*c05Proxy {
 		{name: "proxy-header", upChunks: chunks(9, 9), upLast: "block", reply: 3, header: 1, failAt: -1},
 		{name: "proxy-header-data-with-eof", upChunks: chunks(9, 9), upLast: "eof", header: 1, failAt: -1},
 		{name: "proxy-header-unparsable-client-address", upChunks: chunks(9), upLast: "block", header: 2, failAt: -1},
+		{name: "proxy-header-ipv6-peer", upChunks: chunks(9, 9), upLast: "block", reply: 3, header: 1, peer: 3, failAt: -1},
+		{name: "proxy-header-ipv6-zone-peer-data-with-eof", upChunks: chunks(5, 0, 7), upLast: "eof", header: 1, peer: 4, failAt: -1},
+		{name: "proxy-header-mapped-peer", upChunks: chunks(9), upLast: "block", reply: 40000, header: 1, peer: 5, failAt: -1},
+		{name: "proxy-header-empty-peer-address", upChunks: chunks(9), upLast: "block", header: 1, peer: 6, failAt: -1},
+		{name: "proxy-header-bare-ipv6-peer", upChunks: chunks(9), upLast: "block", header: 1, peer: 7, failAt: -1},
+		{name: "proxy-header-peer-without-port", upChunks: chunks(9), upLast: "eof", header: 1, peer: 8, failAt: -1},
+		{name: "no-flag-unparsable-peer", upChunks: chunks(9, 9), upLast: "block", reply: 3, peer: 2, failAt: -1},
+		{name: "no-flag-empty-peer-address", upChunks: chunks(9), upLast: "eof", peer: 6, failAt: -1},
+		{name: "proxy-header-refused-covert", upChunks: chunks(9), upLast: "block", refuse: true, header: 1, peer: 3, failAt: -1},
 		{name: "empty-upload-big-reply", upChunks: nil, upLast: "block", reply: 30000, failAt: -1},
 		{name: "covert-resets", upChunks: chunks(5000, 5000, 5000), upLast: "block", reset: 4000, failAt: -1},
 		// full duplex: 12 x 32 KiB of one pattern flow down while 12 / 14 chunks of another flow up
@@ -1518,6 +1562,13 @@ func c05ProxyScenarios(r *vlib.Rand, n int) []*c05Proxy {
 		}
 		if r.Chance(1, 5) {
 			p.header = 1
+		}
+		if r.Chance(1, 3) {
+			// any peer-address text, with and without the flag (without it the text must not matter)
+			p.peer = r.Range(1, len(c05Peers)-1)
+			if r.Chance(1, 2) {
+				p.header = 1
+			}
 		}
 		if p.upLast == "block" && p.failAt < 0 && r.Chance(1, 8) {
 			p.duplex = true
